@@ -116,7 +116,11 @@ package keeper
 //@ ensures [amount_recorded_is_what_the_staking_module_unbonded] err == nil ==> frec(hashId).Total - old(get0(reporter.FeePaidFromStake, bytes(hashId)).Total) == retsum(Unbond, 0)
 //@ ensures [only_the_bonded_pool_and_the_dispute_escrow_are_touched] forall a addr :: a != module("dispute") && a != module("bonded_tokens_pool") ==> bank.bal[a] == old(bank.bal[a])
 //@ loop 0 "for ; iter.Valid(); iter.Next()"
+//@ loop 0 invariant [only_delegations_with_bonded_validators_are_collected] forall j in [0, len(selectorsList)) :: allocated(selectorsList[j].selectorInfo) && forall m in [0, len(selectorsList[j].selectorInfo)) :: selectorsList[j].selectorInfo[m].validator.Status == 3 && selectorsList[j].selectorInfo[m].validator.DelegatorShares > 0
+//@ iter 0 invariant [only_delegations_with_bonded_validators_are_collected] allocated(selectorSharesList) && forall m in [0, len(selectorSharesList)) :: selectorSharesList[m].validator.Status == 3 && selectorSharesList[m].validator.DelegatorShares > 0
+//@ iter 0 invariant [earlier_selectors_lists_are_kept] forall j in [0, len(selectorsList)) :: allocated(selectorsList[j].selectorInfo) && forall m in [0, len(selectorsList[j].selectorInfo)) :: selectorsList[j].selectorInfo[m].validator.Status == 3 && selectorsList[j].selectorInfo[m].validator.DelegatorShares > 0
 //@ loop 1 "for _, selectors := range selectorsList"
+//@ loop 1 invariant [the_fee_is_taken_only_from_delegations_with_bonded_validators] forall j in [0, len(selectorsList)) :: allocated(selectorsList[j].selectorInfo) && forall m in [0, len(selectorsList[j].selectorInfo)) :: selectorsList[j].selectorInfo[m].validator.Status == 3 && selectorsList[j].selectorInfo[m].validator.DelegatorShares > 0
 //@ loop 1 invariant [records_sum_to_the_tracked_total] tsum(feeTracker, len(feeTracker)) == totalTrackedAmount && totalTrackedAmount >= 0 && forall j in [0, len(feeTracker)) :: allocated(feeTracker[j])
 //@ loop 1 invariant [bank_untouched_so_far] bank.bal == old(bank.bal) && reporter.FeePaidFromStake == old(reporter.FeePaidFromStake)
 //@ loop 1 invariant [tracked_total_is_what_was_unbonded] totalTrackedAmount == retsum(Unbond, 0)
